@@ -1,2 +1,479 @@
-(* Proofs/SeqProofs.v *)
+(* Proofs/SeqProofs.v — C12: complement table, ReverseComplement,
+   CanonicalSubsequences.  (C13 is in SeqProofsB.v.) *)
+From Coq Require Import String.
 From Bio Require Import Base.
+From Bio.gen Require Import Tables.
+From Bio.Model Require Import Seq.
+From Bio.Spec Require Import SeqSpec.
+
+(* ---- generic list facts ---------------------------------------------------- *)
+Definition bytes256 : list N := map N.of_nat (seq 0 256).
+
+Lemma in_bytes256 b : b < 256 -> In b bytes256.
+Proof.
+  intros H. unfold bytes256. apply in_map_iff. exists (N.to_nat b). split; [apply N2Nat.id|].
+  apply in_seq. lia.
+Qed.
+
+Definition optN_eqb (a b : option N) : bool :=
+  match a, b with Some x, Some y => x =? y | None, None => true | _, _ => false end.
+
+Lemma optN_eqb_eq a b : optN_eqb a b = true -> a = b.
+Proof. destruct a, b; simpl; try congruence. intros H; apply N.eqb_eq in H; congruence. Qed.
+
+Lemma all_some_map_some {A B} (f : A -> option B) (g : A -> B) l :
+  Forall (fun a => f a = Some (g a)) l -> all_some (map f l) = Some (map g l).
+Proof.
+  induction 1 as [|a l Ha _ IH]; [reflexivity|].
+  cbn [map all_some]. rewrite Ha, IH. reflexivity.
+Qed.
+
+Lemma all_some_map_none {A B} (f : A -> option B) l :
+  all_some (map f l) = None <-> Exists (fun a => f a = None) l.
+Proof.
+  induction l as [|a l IH]; cbn [map all_some].
+  - split; [discriminate|intros H; inversion H].
+  - destruct (f a) as [x|] eqn:E.
+    + destruct (all_some (map f l)) as [r|].
+      * split; [discriminate|]. intros H. inversion H; subst; [congruence|].
+        apply IH in H1. discriminate.
+      * split; [intros _; apply Exists_cons_tl; apply IH; reflexivity|reflexivity].
+    + split; [intros _; apply Exists_cons_hd; exact E|reflexivity].
+Qed.
+
+Lemma Forall_rev' {A} (P : A -> Prop) l : Forall P l -> Forall P (rev l).
+Proof. rewrite !Forall_forall. intros H x Hx. apply H. apply in_rev. exact Hx. Qed.
+
+Lemma Exists_rev' {A} (P : A -> Prop) l : Exists P (rev l) <-> Exists P l.
+Proof.
+  rewrite !Exists_exists. split; intros [x [Hx Px]]; exists x; (split; [|exact Px]).
+  - apply in_rev. exact Hx.
+  - apply in_rev in Hx. exact Hx.
+Qed.
+
+Lemma Forall_firstn' {A} (P : A -> Prop) n l : Forall P l -> Forall P (firstn n l).
+Proof. revert l; induction n; intros l H; simpl; [constructor|]. destruct l; [constructor|]. inversion H; subst; constructor; auto. Qed.
+
+Lemma Forall_skipn' {A} (P : A -> Prop) n l : Forall P l -> Forall P (skipn n l).
+Proof. revert l; induction n; intros l H; simpl; [assumption|]. destruct l; [constructor|]. inversion H; auto. Qed.
+
+(* ---- bcompare ---------------------------------------------------------------- *)
+Lemma bcompare_antisym a b : bcompare b a = CompOpp (bcompare a b).
+Proof.
+  revert b. induction a as [|x a IH]; intros [|y b]; try reflexivity.
+  cbn [bcompare]. rewrite (N.compare_antisym x y).
+  destruct (x ?= y); cbn [CompOpp]; [apply IH|reflexivity|reflexivity].
+Qed.
+
+Lemma bcompare_eq a b : bcompare a b = Eq -> a = b.
+Proof.
+  revert b. induction a as [|x a IH]; intros [|y b]; cbn [bcompare]; try discriminate; [reflexivity|].
+  destruct (x ?= y) eqn:E; try discriminate.
+  intros H. apply N.compare_eq in E. apply IH in H. congruence.
+Qed.
+
+Lemma bcompare_refl a : bcompare a a = Eq.
+Proof. induction a as [|x a IH]; [reflexivity|]. cbn [bcompare]. rewrite N.compare_refl. exact IH. Qed.
+
+(* min is symmetric: equal strings give equal results *)
+Lemma lexmin_comm a b : lexmin a b = lexmin b a.
+Proof.
+  unfold lexmin. rewrite (bcompare_antisym a b).
+  destruct (bcompare a b) eqn:E; cbn [CompOpp]; try reflexivity.
+  apply bcompare_eq. exact E.
+Qed.
+
+Lemma lexmin_cases a b : lexmin a b = a \/ lexmin a b = b.
+Proof. unfold lexmin. destruct (bcompare a b); auto. Qed.
+
+Lemma lexmin_le_l a b : bcompare (lexmin a b) a <> Gt.
+Proof.
+  unfold lexmin. destruct (bcompare a b) eqn:E.
+  - rewrite bcompare_refl. discriminate.
+  - rewrite bcompare_refl. discriminate.
+  - rewrite (bcompare_antisym a b), E. discriminate.
+Qed.
+
+Lemma lexmin_le_r a b : bcompare (lexmin a b) b <> Gt.
+Proof.
+  unfold lexmin. destruct (bcompare a b) eqn:E.
+  - rewrite E. discriminate.
+  - rewrite E. discriminate.
+  - rewrite bcompare_refl. discriminate.
+Qed.
+
+(* ---- the complement table: a sweep over the 256 regenerated entries ------------ *)
+Lemma comp_table_sweep : forallb (fun b => optN_eqb (comp b) (compl b)) bytes256 = true.
+Proof. vm_compute. reflexivity. Qed.
+
+Lemma complement_tab_length : length complement_tab = 256%nat.
+Proof. vm_compute. reflexivity. Qed.
+
+Lemma compl_range b c : compl b = Some c -> b < 256.
+Proof.
+  unfold compl.
+  repeat match goal with
+  | |- context [?x =? ?y] => destruct (N.eqb_spec x y) as [->|?]; [intros _; reflexivity|]
+  end.
+  discriminate.
+Qed.
+
+Lemma comp_table_exact b : comp b = compl b.
+Proof.
+  destruct (N.lt_ge_cases b 256) as [Hlt|Hge].
+  - pose proof comp_table_sweep as S. rewrite forallb_forall in S.
+    apply optN_eqb_eq. apply S. apply in_bytes256. exact Hlt.
+  - assert (Hc : comp b = None).
+    { unfold comp, tab_get.
+      replace (nth_error complement_tab (N.to_nat b)) with (@None (option N)); [reflexivity|].
+      symmetry. apply nth_error_None. rewrite complement_tab_length. lia. }
+    rewrite Hc. destruct (compl b) as [c|] eqn:E; [|reflexivity].
+    apply compl_range in E. lia.
+Qed.
+
+(* the spec complement is an involution and preserves case (all of N) *)
+Lemma compl_involutive b c : compl b = Some c -> compl c = Some b.
+Proof.
+  unfold compl at 1.
+  repeat match goal with
+  | |- context [?x =? ?y] =>
+    destruct (N.eqb_spec x y) as [->|?]; [intros H; inversion H; subst; reflexivity|]
+  end.
+  discriminate.
+Qed.
+
+Lemma compl_case b c : compl b = Some c -> is_lower c = is_lower b.
+Proof.
+  unfold compl.
+  repeat match goal with
+  | |- context [?x =? ?y] =>
+    destruct (N.eqb_spec x y) as [->|?]; [intros H; inversion H; subst; reflexivity|]
+  end.
+  discriminate.
+Qed.
+
+Lemma comp_involutive b c : comp b = Some c -> comp c = Some b.
+Proof. rewrite !comp_table_exact. apply compl_involutive. Qed.
+
+Lemma comp_case_preserving b c : comp b = Some c -> is_lower c = is_lower b.
+Proof. rewrite comp_table_exact. apply compl_case. Qed.
+
+(* accepted exactly on the ten letters *)
+Lemma comp_accepts_iff b : (exists c, comp b = Some c) <-> In b (bs "aAcCgGtTnN").
+Proof.
+  rewrite comp_table_exact. split.
+  - intros [c H]. revert H. unfold compl.
+    repeat match goal with
+    | |- context [?x =? ?y] => destruct (N.eqb_spec x y) as [->|?]; [intros _; vm_compute; tauto|]
+    end.
+    discriminate.
+  - intros H. vm_compute in H.
+    repeat (destruct H as [<-|H]; [vm_compute; eauto|]). contradiction.
+Qed.
+
+(* ---- complb / rcseq ------------------------------------------------------------ *)
+Lemma is_dna10_compl b : is_dna10 b = true -> compl b = Some (complb b).
+Proof. unfold is_dna10, complb. destruct (compl b); [reflexivity|discriminate]. Qed.
+
+Lemma is_dna10_false b : is_dna10 b = false <-> compl b = None.
+Proof. unfold is_dna10. destruct (compl b); split; congruence. Qed.
+
+Lemma complb_dna10 b : is_dna10 b = true -> is_dna10 (complb b) = true.
+Proof.
+  intros H. pose proof (is_dna10_compl b H) as E. apply compl_involutive in E.
+  unfold is_dna10. rewrite E. reflexivity.
+Qed.
+
+Lemma complb_involutive b : is_dna10 b = true -> complb (complb b) = b.
+Proof.
+  intros H. pose proof (is_dna10_compl b H) as E. apply compl_involutive in E.
+  unfold complb at 1. rewrite E. reflexivity.
+Qed.
+
+Lemma rcseq_length s : length (rcseq s) = length s.
+Proof. unfold rcseq. rewrite rev_length, map_length. reflexivity. Qed.
+
+Lemma rcseq_dna10 s : dna10 s -> dna10 (rcseq s).
+Proof.
+  intros H. unfold rcseq, dna10. apply Forall_rev'. apply Forall_forall.
+  intros x Hx. apply in_map_iff in Hx. destruct Hx as [y [<- Hy]].
+  apply complb_dna10. unfold dna10 in H. rewrite Forall_forall in H. apply H. exact Hy.
+Qed.
+
+Lemma rcseq_involutive s : dna10 s -> rcseq (rcseq s) = s.
+Proof.
+  intros H. unfold rcseq. rewrite map_rev, rev_involutive, map_map.
+  induction H as [|b s Hb _ IH]; [reflexivity|].
+  cbn [map]. rewrite complb_involutive by exact Hb. rewrite IH. reflexivity.
+Qed.
+
+Lemma rcseq_app s t : rcseq (s ++ t) = rcseq t ++ rcseq s.
+Proof. unfold rcseq. rewrite map_app, rev_app_distr. reflexivity. Qed.
+
+(* ---- ReverseComplement ----------------------------------------------------------- *)
+Lemma rc_spec dst src : dna10 src -> rc dst src = Ok (dst ++ rcseq src).
+Proof.
+  intros H. unfold rc.
+  rewrite (all_some_map_some comp complb).
+  - rewrite map_rev. reflexivity.
+  - apply Forall_rev'. eapply Forall_impl; [|exact H].
+    intros b Hb. cbv beta in *. rewrite comp_table_exact. apply is_dna10_compl. exact Hb.
+Qed.
+
+Lemma rc_panics_iff dst src :
+  rc dst src = Panic <-> Exists (fun b => is_dna10 b = false) src.
+Proof.
+  unfold rc. destruct (all_some (map comp (rev src))) as [l|] eqn:E.
+  - split; [discriminate|]. intros H. exfalso.
+    assert (N : all_some (map comp (rev src)) = None).
+    { apply all_some_map_none. apply (proj2 (Exists_rev' _ _)). eapply Exists_impl; [|exact H].
+      intros b Hb. cbv beta in *. rewrite comp_table_exact. apply is_dna10_false. exact Hb. }
+    congruence.
+  - split; [|reflexivity]. intros _.
+    apply all_some_map_none in E. apply (proj1 (Exists_rev' _ _)) in E. eapply Exists_impl; [|exact E].
+    intros b Hb. cbv beta in Hb. rewrite comp_table_exact in Hb. apply is_dna10_false. exact Hb.
+Qed.
+
+Lemma dna10_dec s : dna10 s \/ Exists (fun b => is_dna10 b = false) s.
+Proof.
+  induction s as [|b s IH]; [left; constructor|].
+  destruct (is_dna10 b) eqn:E.
+  - destruct IH as [IH|IH]; [left; constructor; assumption|right; apply Exists_cons_tl; exact IH].
+  - right. apply Exists_cons_hd. exact E.
+Qed.
+
+Lemma dna10_not_exists s : dna10 s -> ~ Exists (fun b => is_dna10 b = false) s.
+Proof.
+  intros H E. apply Exists_exists in E. destruct E as [b [Hin Hb]].
+  unfold dna10 in H. rewrite Forall_forall in H. specialize (H b Hin). congruence.
+Qed.
+
+(* total description: Ok with the spec value, or Panic; never Err *)
+Lemma rc_exact dst src :
+  (dna10 src /\ rc dst src = Ok (dst ++ rcseq src)) \/
+  (Exists (fun b => is_dna10 b = false) src /\ rc dst src = Panic).
+Proof.
+  destruct (dna10_dec src) as [H|H].
+  - left. split; [exact H|apply rc_spec; exact H].
+  - right. split; [exact H|apply rc_panics_iff; exact H].
+Qed.
+
+Lemma rc_ok_inv dst src r : rc dst src = Ok r -> dna10 src /\ r = dst ++ rcseq src.
+Proof.
+  intros E. destruct (rc_exact dst src) as [[H E']|[H E']]; rewrite E' in E.
+  - inversion E. auto.
+  - discriminate.
+Qed.
+
+Lemma rc_involutive s : dna10 s -> exists r, rc [] s = Ok r /\ rc [] r = Ok s.
+Proof.
+  intros H. exists (rcseq s). split.
+  - apply (rc_spec [] s H).
+  - rewrite (rc_spec [] (rcseq s)) by (apply rcseq_dna10; exact H).
+    rewrite rcseq_involutive by exact H. reflexivity.
+Qed.
+
+Lemma rc_string_agrees s : rc_string s = rc [] s.
+Proof. reflexivity. Qed.
+
+(* the prefix is kept: the result of any dst is dst followed by the result of [] *)
+Lemma rc_append dst src r : rc [] src = Ok r -> rc dst src = Ok (dst ++ r).
+Proof. intros E. apply rc_ok_inv in E. destruct E as [H ->]. apply rc_spec. exact H. Qed.
+
+(* ---- windows of a sequence and of its reverse complement ------------------------------ *)
+Lemma window_split s i k : (i + k <= length s)%nat ->
+  s = firstn i s ++ window s i k ++ skipn k (skipn i s).
+Proof.
+  intros _. unfold window. rewrite (firstn_skipn k (skipn i s)). rewrite firstn_skipn. reflexivity.
+Qed.
+
+Lemma window_length s i k : (i + k <= length s)%nat -> length (window s i k) = k.
+Proof. intros H. unfold window. rewrite firstn_length, skipn_length. lia. Qed.
+
+Lemma window_app_mid a w c : window (a ++ w ++ c) (length a) (length w) = w.
+Proof.
+  unfold window. rewrite skipn_app, Nat.sub_diag, skipn_all. cbn [skipn app].
+  rewrite firstn_app, Nat.sub_diag, firstn_all. cbn [firstn]. apply app_nil_r.
+Qed.
+
+(* the reverse complement of window i of s is window (n-k-i) of rc s *)
+Lemma window_rcseq s i k : (i + k <= length s)%nat ->
+  window (rcseq s) (length s - i - k) k = rcseq (window s i k).
+Proof.
+  intros H. pose proof (window_split s i k H) as E.
+  set (a := firstn i s) in *. set (w := window s i k) in *. set (c := skipn k (skipn i s)) in *.
+  assert (La : length a = i) by (unfold a; rewrite firstn_length; lia).
+  assert (Lw : length w = k) by (unfold w; apply window_length; exact H).
+  assert (Lc : length c = (length s - i - k)%nat) by (unfold c; rewrite !skipn_length; lia).
+  rewrite E at 1. rewrite !rcseq_app. rewrite <- app_assoc.
+  rewrite <- Lc. rewrite <- (rcseq_length c). rewrite <- Lw at 1. rewrite <- (rcseq_length w).
+  apply window_app_mid.
+Qed.
+
+Lemma window_dna10 s i k : dna10 s -> dna10 (window s i k).
+Proof. intros H. unfold window, dna10. apply Forall_firstn'. apply Forall_skipn'. exact H. Qed.
+
+(* ---- CanonicalSubsequences ------------------------------------------------------------ *)
+(* the i-th item, when the window fits *)
+Lemma canon_at_spec s k i : (i + k <= length s)%nat ->
+  canon_at s (rcseq s) k i = lexmin (window s i k) (rcseq (window s i k)).
+Proof.
+  intros H. unfold canon_at, slice. rewrite rcseq_length.
+  change (firstn k (skipn i s)) with (window s i k).
+  change (firstn k (skipn (length s - i - k) (rcseq s))) with (window (rcseq s) (length s - i - k) k).
+  rewrite window_rcseq by exact H. reflexivity.
+Qed.
+
+Definition canon_items (s : bytes) (kn : nat) : list bytes :=
+  map (canon_at s (rcseq s) kn) (seq 0 (S (length s) - kn)).
+
+Lemma canon_items_length s kn : length (canon_items s kn) = (S (length s) - kn)%nat.
+Proof. unfold canon_items. rewrite map_length, seq_length. reflexivity. Qed.
+
+Lemma canon_unfold s k : dna10 s -> (0 <= k)%Z -> canon s k = Ok (canon_items s (Z.to_nat k)).
+Proof.
+  intros H Hk. unfold canon. rewrite (rc_spec [] s H). cbn [app].
+  replace (k <? 0)%Z with false by (symmetry; apply Z.ltb_ge; exact Hk). reflexivity.
+Qed.
+
+Lemma canon_panics_iff s k :
+  canon s k = Panic <-> ((k < 0)%Z \/ Exists (fun b => is_dna10 b = false) s).
+Proof.
+  unfold canon. destruct (rc_exact [] s) as [[H E]|[H E]]; rewrite E.
+  - destruct (Z.ltb_spec k 0) as [Hlt|Hge].
+    + split; [auto|reflexivity].
+    + split; [discriminate|]. intros [Hk|Hx]; [lia|]. exfalso. eapply dna10_not_exists; eassumption.
+  - split; [auto|reflexivity].
+Qed.
+
+Lemma canon_ok s k : dna10 s -> (0 <= k)%Z -> exists items, canon s k = Ok items.
+Proof. intros H Hk. rewrite canon_unfold by assumption. eauto. Qed.
+
+Lemma canon_count s k : dna10 s -> (1 <= k)%Z ->
+  exists items, canon s k = Ok items /\
+    Z.of_nat (length items) =
+      (if (Z.of_nat (length s) <? k)%Z then 0 else Z.of_nat (length s) - k + 1)%Z.
+Proof.
+  intros H Hk. rewrite canon_unfold by (assumption || lia).
+  eexists. split; [reflexivity|]. rewrite canon_items_length.
+  destruct (Z.ltb_spec (Z.of_nat (length s)) k); lia.
+Qed.
+
+Lemma canon_nth s k items i : (0 <= k)%Z -> canon s k = Ok items ->
+  (i + Z.to_nat k <= length s)%nat ->
+  nth_error items i =
+    Some (lexmin (window s i (Z.to_nat k)) (rcseq (window s i (Z.to_nat k)))).
+Proof.
+  intros Hk E Hi.
+  assert (H : dna10 s).
+  { destruct (dna10_dec s) as [H|H]; [exact H|].
+    assert (P : canon s k = Panic) by (apply canon_panics_iff; auto). congruence. }
+  rewrite canon_unfold in E by assumption. injection E as E; subst items. unfold canon_items.
+  set (f := canon_at s (rcseq s) (Z.to_nat k)).
+  rewrite (nth_error_map f i (seq 0 (S (length s) - Z.to_nat k))).
+  assert (Hn : nth_error (seq 0 (S (length s) - Z.to_nat k)) i = Some i).
+  { rewrite (nth_error_nth' _ 0%nat) by (rewrite seq_length; lia).
+    rewrite seq_nth by lia. reflexivity. }
+  rewrite Hn. cbn [option_map]. unfold f. rewrite canon_at_spec by exact Hi. reflexivity.
+Qed.
+
+(* every item is one of the two strands' k-mers, and not greater than either *)
+Lemma canon_item_min s k items i x : (0 <= k)%Z -> canon s k = Ok items ->
+  nth_error items i = Some x ->
+  let w := window s i (Z.to_nat k) in
+  (x = w \/ x = rcseq w) /\ bcompare x w <> Gt /\ bcompare x (rcseq w) <> Gt.
+Proof.
+  intros Hk E Hx w.
+  assert (Hi : (i + Z.to_nat k <= length s)%nat).
+  { assert (L : (i < length items)%nat) by (apply nth_error_Some; congruence).
+    assert (H : dna10 s).
+    { destruct (dna10_dec s) as [H|H]; [exact H|].
+      assert (P : canon s k = Panic) by (apply canon_panics_iff; auto). congruence. }
+    rewrite canon_unfold in E by assumption. injection E as E; subst items.
+    rewrite canon_items_length in L. lia. }
+  rewrite (canon_nth s k items i Hk E Hi) in Hx. inversion Hx; subst x. fold w.
+  split; [apply lexmin_cases|]. split; [apply lexmin_le_l|apply lexmin_le_r].
+Qed.
+
+Lemma rev_seq0 n : rev (seq 0 n) = map (fun j => (n - 1 - j)%nat) (seq 0 n).
+Proof.
+  induction n as [|n IH]; [reflexivity|].
+  rewrite seq_S at 1. rewrite rev_app_distr. cbn [rev app plus].
+  cbn [seq map]. f_equal; [lia|].
+  rewrite IH. rewrite <- seq_shift, map_map. apply map_ext. intros j. lia.
+Qed.
+
+(* A sequence and its reverse complement yield the same items in opposite
+   order.  Holds for every k >= 0. *)
+Lemma canon_strand_symmetric s k items :
+  dna10 s -> (0 <= k)%Z -> canon s k = Ok items -> canon (rcseq s) k = Ok (rev items).
+Proof.
+  intros H Hk E.
+  rewrite canon_unfold in E by assumption. injection E as E; subst items.
+  rewrite canon_unfold by (try apply rcseq_dna10; assumption).
+  unfold canon_items. rewrite rcseq_involutive by exact H. rewrite rcseq_length.
+  set (kn := Z.to_nat k). set (n := length s). f_equal.
+  rewrite <- map_rev, rev_seq0, map_map. apply map_ext_in.
+  intros j Hj. apply in_seq in Hj.
+  assert (Hjk : (j + kn <= n)%nat) by lia.
+  set (i := (S n - kn - 1 - j)%nat).
+  assert (Hik : (i + kn <= n)%nat) by (unfold i; lia).
+  rewrite (canon_at_spec s kn i Hik).
+  (* the left item, computed on the other strand *)
+  unfold canon_at, slice. fold n.
+  change (firstn kn (skipn j (rcseq s))) with (window (rcseq s) j kn).
+  change (firstn kn (skipn (n - j - kn) s)) with (window s (n - j - kn) kn).
+  replace (n - j - kn)%nat with i by (unfold i; lia).
+  assert (Ej : window (rcseq s) j kn = rcseq (window s i kn)).
+  { replace j with (n - i - kn)%nat by (unfold i; lia). apply window_rcseq. exact Hik. }
+  rewrite Ej. apply (lexmin_comm (rcseq (window s i kn)) (window s i kn)).
+Qed.
+
+(* the same, phrased with the model's rc (for C17) *)
+Lemma canon_strand_symmetric_rc s r k items :
+  (0 <= k)%Z -> rc [] s = Ok r -> canon s k = Ok items -> canon r k = Ok (rev items).
+Proof.
+  intros Hk Er E. apply rc_ok_inv in Er. destruct Er as [H ->]. cbn [app].
+  apply canon_strand_symmetric; assumption.
+Qed.
+
+(* total form: both sides are defined on dna10 input *)
+Lemma canon_strand_symmetric_total s k : dna10 s -> (0 <= k)%Z ->
+  exists items, canon s k = Ok items /\ canon (rcseq s) k = Ok (rev items).
+Proof.
+  intros H Hk. destruct (canon_ok s k H Hk) as [items E]. exists items. split; [exact E|].
+  apply canon_strand_symmetric; assumption.
+Qed.
+
+(* the k-mers are k long *)
+Lemma canon_item_length s k items x : dna10 s -> (0 <= k)%Z -> canon s k = Ok items ->
+  In x items -> length x = Z.to_nat k.
+Proof.
+  intros H Hk E Hx. apply In_nth_error in Hx. destruct Hx as [i Hi].
+  destruct (canon_item_min s k items i x Hk E Hi) as [[-> | ->] _].
+  - apply window_length.
+    assert (L : (i < length items)%nat) by (apply nth_error_Some; congruence).
+    rewrite canon_unfold in E by assumption. injection E as E; subst items.
+    rewrite canon_items_length in L. lia.
+  - rewrite rcseq_length. apply window_length.
+    assert (L : (i < length items)%nat) by (apply nth_error_Some; congruence).
+    rewrite canon_unfold in E by assumption. injection E as E; subst items.
+    rewrite canon_items_length in L. lia.
+Qed.
+
+(* ---- the forms stated in Properties/C12.v (k >= 1) ------------------------------------ *)
+Lemma canon_nth_pos s k items i : (1 <= k)%Z -> canon s k = Ok items ->
+  (i + Z.to_nat k <= length s)%nat ->
+  nth_error items i =
+    Some (lexmin (window s i (Z.to_nat k)) (rcseq (window s i (Z.to_nat k)))).
+Proof. intros Hk. apply canon_nth. lia. Qed.
+
+Lemma canon_item_min_pos s k items i x : (1 <= k)%Z -> canon s k = Ok items ->
+  nth_error items i = Some x ->
+  let w := window s i (Z.to_nat k) in
+  (x = w \/ x = rcseq w) /\ bcompare x w <> Gt /\ bcompare x (rcseq w) <> Gt.
+Proof. intros Hk. apply canon_item_min. lia. Qed.
+
+Lemma canon_strand_symmetric_pos s k items : dna10 s -> (1 <= k)%Z ->
+  canon s k = Ok items -> canon (rcseq s) k = Ok (rev items).
+Proof. intros H Hk. apply canon_strand_symmetric; [exact H|lia]. Qed.
